@@ -323,9 +323,19 @@ def check(an, rep, tier):
             good = bool(paths.entails(gs_, atomise,
                                       lambda a: a['N'] or a['D']))
         ok = ok and good
+    # the guard is GONE when nothing in the function compares a position with
+    # the protected index any more; a guard that exists but is not recognised
+    # (moved into a closure, a for / else search) is not decided here
+    still_compared = any(
+        isinstance(n_, ast.Compare) and any(
+            isinstance(x_, ast.Name) and x_.id == prot
+            for x_ in ast.walk(n_)) and
+        any(isinstance(o_, (ast.Eq, ast.NotEq)) for o_ in n_.ops)
+        for n_ in ast.walk(fn.node))
     rep.add('P-zero', 'tensors.const', 'zero entry stored only where the '
             'zero index differs from the protected index',
-            'ok' if ok else 'violation',
+            'ok' if ok else ('unknown' if (still_compared or not z)
+                             else 'violation'),
             '' if ok else 'the store of the zero entry is no longer guarded '
             'by "i_non_zero is None or i_zero[k] != i_non_zero[k]"')
     raises = [n for n in ast.walk(fn.node) if isinstance(n, ast.Raise)]
